@@ -419,6 +419,12 @@ def finish(ctx, level, coverage, assumptions, failures, replay_family=None):
     rc = 0
     replay_paths = []
     if unknown:
+        classes = {}
+        for fl in unknown:
+            k = (fl.get("family"), ",".join(fl["failed"]))
+            classes[k] = classes.get(k, 0) + 1
+        for (fam, k), n in sorted(classes.items(), key=lambda kv: -kv[1]):
+            log("[fail-class] %s %s: %d case(s)" % (fam, k, n))
         os.makedirs(REPLAYS, exist_ok=True)
         seen = {}
         for fl in unknown:
